@@ -281,6 +281,31 @@ type Partition struct {
 	t       *Tables
 	subj    subject
 	strict  bool
+	env     map[ssa.Value]*itab // parameter bindings for nested evaluation
+	depth   int
+}
+
+// itab is a table of integer values over the type domain (finite-domain
+// abstract value: one value per message type), defined on `def`.
+type itab struct {
+	v   [tyN]int64
+	def TySet
+}
+
+func identityTab() *itab {
+	t := &itab{def: FullSet()}
+	for i := 0; i < tyN; i++ {
+		t.v[i] = int64(i + tyMin)
+	}
+	return t
+}
+
+func constTab(k int64) *itab {
+	t := &itab{def: FullSet()}
+	for i := range t.v {
+		t.v[i] = k
+	}
+	return t
 }
 
 // Partition interprets fn over the type domain.  In strict mode an
@@ -374,6 +399,57 @@ func (pa *Partition) boolSet(v ssa.Value, ctx TySet, visiting map[ssa.Value]bool
 	case *ssa.BinOp:
 		switch x.Op {
 		case token.EQL, token.NEQ, token.LSS, token.LEQ, token.GTR, token.GEQ:
+			// err == nil / err != nil for the error result of a classifier call
+			if (x.Op == token.EQL || x.Op == token.NEQ) && (isNilConst(x.X) || isNilConst(x.Y)) {
+				e := x.X
+				if isNilConst(e) {
+					e = x.Y
+				}
+				if ex, ok := e.(*ssa.Extract); ok && isErrorType(ex.Type()) {
+					if call, ok := ex.Tuple.(*ssa.Call); ok {
+						if res, ok := pa.evalCall(call, ctx); ok && ex.Index < len(res) && res[ex.Index] != nil && ctx.Subset(res[ex.Index].def) {
+							var out TySet
+							for _, t := range ctx.List() {
+								nonNil := res[ex.Index].v[t-tyMin] != 0
+								if (x.Op == token.NEQ) == nonNil {
+									out.Add(t)
+								}
+							}
+							return out, true
+						}
+					}
+				}
+			}
+			if isInteger(x.X.Type()) {
+				a, ok1 := pa.intTab(x.X, ctx, 0)
+				b, ok2 := pa.intTab(x.Y, ctx, 0)
+				if ok1 && ok2 && ctx.Subset(a.def) && ctx.Subset(b.def) {
+					var out TySet
+					for _, t := range ctx.List() {
+						i := t - tyMin
+						l, r := a.v[i], b.v[i]
+						hold := false
+						switch x.Op {
+						case token.EQL:
+							hold = l == r
+						case token.NEQ:
+							hold = l != r
+						case token.LSS:
+							hold = l < r
+						case token.LEQ:
+							hold = l <= r
+						case token.GTR:
+							hold = l > r
+						case token.GEQ:
+							hold = l >= r
+						}
+						if hold {
+							out.Add(t)
+						}
+					}
+					return out, true
+				}
+			}
 			if pa.subj.isSubject(x.X) {
 				if c, ok := constInt(x.Y); ok {
 					return filterCmp(ctx, x.Op, c), true
@@ -405,6 +481,17 @@ func (pa *Partition) boolSet(v ssa.Value, ctx TySet, visiting map[ssa.Value]bool
 		if f := x.Call.StaticCallee(); f != nil && pa.t.P.InModule(f) && len(x.Call.Args) == 1 && pa.subj.isSubject(x.Call.Args[0]) {
 			if ps, ok := pa.t.PredicateTrueSet(f); ok {
 				return ctx.And(ps), true
+			}
+		}
+		if res, ok := pa.evalCall(x, ctx); ok && len(res) >= 1 && res[0] != nil {
+			var out TySet
+			for _, t := range ctx.List() {
+				if res[0].def.Has(t) && res[0].v[t-tyMin] != 0 {
+					out.Add(t)
+				}
+			}
+			if ctx.Subset(res[0].def) {
+				return out, true
 			}
 		}
 	case *ssa.Extract:
@@ -511,4 +598,242 @@ func (pa *Partition) describeUnknown() string {
 	}
 	sort.Strings(s)
 	return strings.Join(s, "; ")
+}
+
+
+// intTab evaluates an integer SSA value as a table over the type domain.
+func (pa *Partition) intTab(v ssa.Value, ctx TySet, depth int) (*itab, bool) {
+	if depth > 24 {
+		return nil, false
+	}
+	if k, ok := constInt(v); ok {
+		if _, isConst := stripConv(v).(*ssa.Const); isConst {
+			return constTab(k), true
+		}
+	}
+	if pa.env != nil {
+		if t, ok := pa.env[v]; ok {
+			return t, true
+		}
+	}
+	if pa.subj.isSubject != nil && pa.subj.isSubject(v) {
+		return identityTab(), true
+	}
+	switch x := v.(type) {
+	case *ssa.Convert:
+		if !isInteger(x.Type()) || !isInteger(x.X.Type()) {
+			return nil, false
+		}
+		t, ok := pa.intTab(x.X, ctx, depth+1)
+		if !ok {
+			return nil, false
+		}
+		if isUnsigned(x.Type()) && !isUnsigned(x.X.Type()) {
+			// negative values would wrap: leave them undefined
+			out := &itab{}
+			for _, ty := range t.def.List() {
+				if t.v[ty-tyMin] >= 0 {
+					out.v[ty-tyMin] = t.v[ty-tyMin]
+					out.def.Add(ty)
+				}
+			}
+			return out, true
+		}
+		return t, true
+	case *ssa.ChangeType:
+		return pa.intTab(x.X, ctx, depth+1)
+	case *ssa.BinOp:
+		if !isInteger(x.Type()) {
+			return nil, false
+		}
+		a, ok1 := pa.intTab(x.X, ctx, depth+1)
+		b, ok2 := pa.intTab(x.Y, ctx, depth+1)
+		if !ok1 || !ok2 {
+			return nil, false
+		}
+		out := &itab{}
+		for _, ty := range a.def.And(b.def).List() {
+			i := ty - tyMin
+			l, r := a.v[i], b.v[i]
+			var res int64
+			okv := true
+			switch x.Op {
+			case token.ADD:
+				res = l + r
+			case token.SUB:
+				res = l - r
+				if isUnsigned(x.Type()) && res < 0 {
+					okv = false
+				}
+			case token.MUL:
+				res = l * r
+			case token.QUO:
+				if r == 0 {
+					okv = false
+				} else {
+					res = l / r
+				}
+			case token.REM:
+				if r == 0 {
+					okv = false
+				} else {
+					res = l % r
+				}
+			case token.AND:
+				res = l & r
+			case token.OR:
+				res = l | r
+			case token.XOR:
+				res = l ^ r
+			case token.SHL:
+				if r < 0 || r > 40 {
+					okv = false
+				} else {
+					res = l << uint(r)
+				}
+			case token.SHR:
+				if r < 0 || r > 62 || l < 0 {
+					okv = false
+				} else {
+					res = l >> uint(r)
+				}
+			default:
+				okv = false
+			}
+			if okv {
+				out.v[i] = res
+				out.def.Add(ty)
+			}
+		}
+		return out, true
+	case *ssa.Phi:
+		out := &itab{}
+		for i, e := range x.Edges {
+			pred := x.Block().Preds[i]
+			es := pa.Edge[[2]*ssa.BasicBlock{pred, x.Block()}]
+			t, ok := pa.intTab(e, es, depth+1)
+			if !ok {
+				return nil, false
+			}
+			for _, ty := range es.And(t.def).List() {
+				out.v[ty-tyMin] = t.v[ty-tyMin]
+				out.def.Add(ty)
+			}
+		}
+		return out, true
+	case *ssa.Extract:
+		if call, ok := x.Tuple.(*ssa.Call); ok {
+			if res, ok := pa.evalCall(call, ctx); ok && x.Index < len(res) && res[x.Index] != nil {
+				return res[x.Index], true
+			}
+		}
+	case *ssa.Call:
+		if res, ok := pa.evalCall(x, ctx); ok && len(res) == 1 && res[0] != nil {
+			return res[0], true
+		}
+	}
+	return nil, false
+}
+
+// evalCall evaluates a call of a module function whose integer/bool arguments
+// are known as tables: the callee is partitioned with its parameters bound,
+// and each integer or boolean result is returned as a table (nil for results
+// of other types).  Loop-free callees only.
+func (pa *Partition) evalCall(call *ssa.Call, ctx TySet) ([]*itab, bool) {
+	f := call.Call.StaticCallee()
+	if f == nil || !pa.t.P.InModule(f) || f.Blocks == nil || pa.depth > 4 {
+		return nil, false
+	}
+	env := map[ssa.Value]*itab{}
+	for i, p := range f.Params {
+		if i >= len(call.Call.Args) {
+			return nil, false
+		}
+		if isInteger(p.Type()) {
+			t, ok := pa.intTab(call.Call.Args[i], ctx, 0)
+			if !ok {
+				return nil, false
+			}
+			env[p] = t
+		}
+	}
+	if len(env) == 0 {
+		return nil, false
+	}
+	sub := &Partition{Fn: f, Reach: map[*ssa.BasicBlock]TySet{}, Edge: map[[2]*ssa.BasicBlock]TySet{}, t: pa.t, strict: true, env: env, depth: pa.depth + 1}
+	order, acyclic := topoBlocks(f)
+	if !acyclic || len(order) == 0 {
+		return nil, false
+	}
+	sub.Reach[order[0]] = FullSet()
+	for _, b := range order {
+		sub.flow(b)
+	}
+	if len(sub.Unknown) > 0 {
+		return nil, false
+	}
+	nres := f.Signature.Results().Len()
+	out := make([]*itab, nres)
+	for i := 0; i < nres; i++ {
+		rt := f.Signature.Results().At(i).Type()
+		if isErrorType(rt) {
+			// nil-ness of an error result: 0 = nil, 1 = non-nil
+			tab := &itab{}
+			okAll := true
+			for _, r := range returnsOf(f) {
+				reach := sub.Reach[r.Block()]
+				val := int64(-1)
+				if isNilConst(r.Results[i]) {
+					val = 0
+				} else if c, isCall := r.Results[i].(*ssa.Call); isCall && (calleeIs(c.Call.StaticCallee(), "errors", "New") || calleeIs(c.Call.StaticCallee(), "fmt", "Errorf")) {
+					val = 1
+				}
+				if val < 0 {
+					okAll = false
+					break
+				}
+				for _, ty := range reach.List() {
+					tab.v[ty-tyMin] = val
+					tab.def.Add(ty)
+				}
+			}
+			if okAll {
+				out[i] = tab
+			}
+			continue
+		}
+		bt, isBasic := rt.Underlying().(*types.Basic)
+		if !isBasic || (bt.Info()&types.IsInteger == 0 && bt.Kind() != types.Bool) {
+			continue
+		}
+		tab := &itab{}
+		for _, r := range returnsOf(f) {
+			reach := sub.Reach[r.Block()]
+			if bt.Kind() == types.Bool {
+				ts, ok := sub.boolSet(r.Results[i], reach, map[ssa.Value]bool{})
+				if !ok {
+					return nil, false
+				}
+				for _, ty := range reach.List() {
+					if ts.Has(ty) {
+						tab.v[ty-tyMin] = 1
+					} else {
+						tab.v[ty-tyMin] = 0
+					}
+					tab.def.Add(ty)
+				}
+			} else {
+				t, ok := sub.intTab(r.Results[i], reach, 0)
+				if !ok {
+					return nil, false
+				}
+				for _, ty := range reach.And(t.def).List() {
+					tab.v[ty-tyMin] = t.v[ty-tyMin]
+					tab.def.Add(ty)
+				}
+			}
+		}
+		out[i] = tab
+	}
+	return out, true
 }
